@@ -11,6 +11,7 @@ FAT_MUTATORS = (
     "FatVolume::alloc_cluster",
     "FatVolume::update_fat",
     "FatVolume::truncate_cluster_chain",
+    "FatVolume::free_cluster_chain",
     "FatVolume::write_new_directory_entry",
     "FatVolume::write_entry_to_disk",
     "FatVolume::delete_directory_entry",
@@ -45,9 +46,42 @@ def table_of_term(term):
     return None
 
 
+def private_mutating_helpers(F):
+    """Private (non-pub) helper functions of the FS layer that, transitively, write to the medium and are not already in
+    the vocabulary above: a maintainer may move part of an operation into such a helper; calling it is a medium effect of
+    the caller.  Public API functions are not summarised here (the per-function rules treat their composition)."""
+    c = getattr(F, "_mut_helpers", None)
+    if c is not None:
+        return c
+    known = set(x.split("::")[-1] for x in FAT_MUTATORS + CACHE_MUTATORS)
+    cand = {}
+    for f in F.fns:
+        if f.kind == "Closure" or not f.npath.startswith(("volume_mgr::VolumeManagerData::", "volume_mgr::VolumeManager::", "fat::volume::FatVolume::")):
+            continue
+        if f.raw.get("pub") or f.npath.split("::")[-1] in known:
+            continue
+        cand[f.npath] = f
+    mut = set()
+    changed = True
+    while changed:
+        changed = False
+        for np_, f in cand.items():
+            if np_ in mut:
+                continue
+            for b, t in f.calls():
+                r = strip_generics(t["resolved"]) if t.get("resolved") else None
+                if call_matches(t, FAT_MUTATORS) or call_matches(t, ("BlockCache::write_back", "BlockCache::write_back_with_duplicate", "BlockCache::blank_mut")) or (r in mut):
+                    mut.add(np_)
+                    changed = True
+                    break
+    F._mut_helpers = mut
+    return mut
+
+
 def medium_effects(fn):
     """(block, idx|None, kind, desc) for calls that can write to the medium."""
     out = []
+    helpers = private_mutating_helpers(fn.facts) if getattr(fn, "facts", None) is not None else set()
     for b, t in fn.calls():
         n = call_matches(t, FAT_MUTATORS)
         if n:
@@ -56,6 +90,10 @@ def medium_effects(fn):
         n = call_matches(t, CACHE_MUTATORS)
         if n:
             out.append((b, None, "cache", n.split("::")[-1]))
+            continue
+        r = strip_generics(t["resolved"]) if t.get("resolved") else None
+        if r in helpers:
+            out.append((b, None, "helper", r.split("::")[-1]))
     return out
 
 
